@@ -8,11 +8,11 @@ PROPS = [json.loads(l)["id"] for l in open("/verif/properties.jsonl")]
 CHECKS = {
     "C01": dict(
         category="model_checking",
-        text="TLC enumerates model definitions (exhaustively for <=1 grown node, by simulation up to 8 grown "
-             "nodes / 3 states / 2 controls / 2 calibrations over 14 operators with adversarial names) together "
-             "with evaluation points and the exact rational value of every state's update expression; every "
-             "behaviour is replayed into python.compile(...).model with CSE off and on and each named output "
-             "compared with the spec's value.",
+        text="TLC enumerates model definitions (exhaustively for <=1 grown node over 19 operators incl. elementary, inverse-trigonometric and a "
+             "user function supplied through Config.python_modules; by simulation up to 8 grown nodes / 3 states / 2 controls / 2 calibrations, "
+             "look-alike names, dt positive, zero and negative) with the exact rational value of every update expression; every behaviour is written "
+             "down in its own random presentation (declaration order, container, proactive_simplify) and replayed into python.compile(...).model "
+             "with CSE off and on; results handed out earlier are re-read at the end of the behaviour.",
         design_ref="DESIGN.md section 4 C01",
         note="Trusted: TLC + Rational.tla exact arithmetic; the 30-line reference interpreter for elementary "
              "functions (cross-checked against TLC on the rational fragment on every run); tolerance 1e-9 relative.",
@@ -20,11 +20,12 @@ CHECKS = {
     ),
     "C10": dict(
         category="model_checking",
-        text="ManagedFilter.tla models the runtime over the free monoid of filter calls on an integer time grid; TLC proves the "
-             "plan theorem (direction, bound, sum, emptiness) for all from/to in -40..40 and 8 max_dt values and checks the "
-             "tick invariants exhaustively; every single tick of the small grid and thousands of simulated histories are "
-             "replayed into runtime.py and into ManagedFilter.h (recording Impl, 4 control x calibration combinations) on a "
-             "dyadic time grid where the issued step sequence must equal the plan exactly.",
+        text="ManagedFilter.tla models the runtime over the free monoid of filter calls on an integer time grid; TLC proves the plan theorem for "
+             "all from/to in -40..40 and 8 max_dt values and checks the tick invariants exhaustively; every single tick of the small grid and "
+             "simulated histories are replayed into runtime.py and ManagedFilter.h (4 tag combinations, also shifted by 2^20 s) on a dyadic grid "
+             "where the issued steps must equal the plan exactly; on decimal times (max_dt 0.01-0.3 s), on single moves of up to 144 000 "
+             "sub-steps and on moves within 1e-10..1e-8 s of a whole number of large steps, recorded travels are validated by TLC against "
+             "PlanOK (MF_Trace.tla); thorough tier: the repository's own runtime tests under a recording plugin.",
         design_ref="DESIGN.md section 4 C10",
         note="Trusted: recording stand-in filters; g++ 12; the dyadic grid argument (all float time arithmetic exact). "
              "Decimal (non-representable) step sizes are covered by the trace-validation part (PlanOK).",
@@ -32,11 +33,11 @@ CHECKS = {
     ),
     "C11": dict(
         category="model_checking",
-        text="Same specification: Tick folds readings in the order given, holds at the last reading, reports without holding; "
-             "TLC checks exhaustively (<=2 ticks x <=2 readings x 7 time points) that reading-less ticks never influence "
-             "later returns (ghost run), that refused ticks change nothing and that the held time only moves to reading "
-             "timestamps; behaviours are replayed into both runtimes and the complete call sequences (with the control "
-             "each step was given) compared; statically refused calls are covered by negative compile tests.",
+        text="Same specification: Tick folds readings in the order given, holds at the last reading, reports without holding; TLC checks "
+             "exhaustively that reading-less ticks never influence later returns (ghost run), that refused ticks change nothing and that the held "
+             "time only moves to reading timestamps; behaviours are replayed into both runtimes (complete call sequences with the control each "
+             "step was given); statically refused calls are negative compile tests; a second family ticks REAL compiled non-linear Python "
+             "filters and compares with the hand fold in the order the spec gives.",
         design_ref="DESIGN.md section 4 C11",
         note="Trusted: recording stand-in filters (free monoid), g++ 12 as the judge of the negative compile tests.",
         technique="TLA+ spec (ManagedFilter.tla) + TLC; spec->code replay of tick histories into Python and C++ runtimes",
@@ -52,47 +53,50 @@ CHECKS = {
     ),
     "C04": dict(
         category="model_checking",
-        text="TLC computes x' = f(x,u) and P' = G P G^T + V M V^T exactly (M assembled by control NAME with distinct noises) along "
-             "SetEstimate/Predict behaviours, checks symmetry/PSD of every covariance as an invariant, and the behaviours are replayed "
-             "into process_model (inputs unmodified, repeat call identical).",
+        text="TLC computes x' = f(x,u) and P' = G P G^T + V M V^T exactly (M assembled by control NAME with distinct noises) along histories of "
+             "6-9 SetEstimate/Predict calls on ONE filter object that repeat dt values (incl. dt = 0), checks symmetry/PSD of every covariance as "
+             "an invariant, and the behaviours are replayed into process_model (inputs unmodified, repeat call identical).",
         design_ref="DESIGN.md section 4 C04",
         note="Trusted: exact rational linear algebra (Linalg.tla); rational fragment only; SPD integer covariances.",
         technique="TLA+ spec (Formak.tla Predict) + TLC simulation with invariants; spec->code replay into the Python EKF",
     ),
     "C05": dict(
         category="model_checking",
-        text="TLC computes the Kalman correction exactly for sensors with 1-3 readings of unequal noise and checks on every state the "
-             "stated consequences (z = h(x) leaves x unchanged, P' symmetric PSD, P - P' PSD, S symmetric PD); behaviours are replayed "
-             "into sensor_model and state, covariance, recorded innovation and innovation covariance compared by name.",
+        text="TLC computes the Kalman correction exactly for sensors with 1-4 readings of unequal noise and checks on every state the stated "
+             "consequences (z = h(x) leaves x unchanged, P' symmetric PSD, P - P' PSD, S symmetric PD) and the rescaling theorem InvRescale "
+             "(one reading measured in other units changes nothing); behaviours are replayed into sensor_model (state, covariance, recorded "
+             "innovation, S, by name), and so are their rescaled twins with factor 2^22 (eigenvalues of S spread over 13 decades).",
         design_ref="DESIGN.md section 4 C05",
         note="Trusted: exact rational linear algebra incl. adjugate inverse (sizes 1-3); det S >= 1 conditioning window.",
         technique="TLA+ spec (Formak.tla UpdateAccept) + TLC simulation with invariants; spec->code replay into the Python EKF",
     ),
     "C06": dict(
         category="model_checking",
-        text="The gate is decided exactly in the spec ((nis-m)^2 > 2 m k^2 with nis-m > 0, no square root); UpdateReject leaves the "
-             "estimate unchanged and is never enabled with filtering disabled (invariant InvReject); behaviours with thresholds "
-             "k in {None, 1/2, 1, 3, 5} and readings on both sides of the boundary are replayed into the Python filter (bit-identical "
-             "estimate on discard, innovation still recorded).",
+        text="The gate is decided exactly in the spec ((nis-m)^2 > 2 m k^2 with nis-m > 0, no square root); UpdateReject leaves the estimate "
+             "unchanged and is never enabled with filtering disabled. Behaviours with thresholds k in {None, 1/256, 1/2, 1, 2.576, 3, 5} are "
+             "replayed into the Python filter (bit-identical estimate on discard, from a prior that is symmetric only up to rounding) and into "
+             "the generated C++ filter for every threshold; GateCases.tla enumerates exact cases incl. the boundary for m = 1,2,3,8 against "
+             "remove_innovation and the real removeInnovation<m>; a +-6 ulp band around fl(k sqrt(2m)+m) for m = 1,2,3,5,7 is trace-validated.",
         design_ref="DESIGN.md section 4 C06",
         note="Trusted: exact rational arithmetic; ulp-level boundary agreement between implementations is the trace part (DESIGN 4 C06 d).",
         technique="TLA+ spec (Formak.tla UpdateAccept/UpdateReject + Gate) + TLC; spec->code replay into Python (and C++) filters",
     ),
     "C02": dict(
         category="model_checking",
-        text="The same Formak.tla behaviours (definitions with all control x calibration combinations, 0-3 sensors of 1-3 readings, "
-             "elementary functions) are rendered by FormaK's C++ generator with CSE off and on, compiled with g++ and the generated "
-             "model / process_jacobian / control_jacobian / covariance / SensorModel::{model,jacobian,covariance} compared entry by entry, "
-             "by name, with the spec's exact values; a generated file that does not compile is itself a violation.",
+        text="Formak.tla behaviours (all control x calibration combinations, 0-4 sensors of 1-4 readings, elementary functions, a linear-in-dt "
+             "family with several dt per process, look-alike names, magnitudes given as float / int / Rational / Fraction) are rendered by FormaK's "
+             "C++ generator with CSE off and on, compiled with g++ and model / process_jacobian / control_jacobian / covariance / "
+             "SensorModel::{model,jacobian,covariance} compared entry by entry, by name, with the spec's exact values; published C++ layouts must "
+             "equal the spec's name order; a generated file that does not compile is itself a violation.",
         design_ref="DESIGN.md section 4 C02",
         note="Trusted: Eigen stand-in (no Eigen in the sandbox), g++ 12 -std=c++20, name<->index maps probed from the generated accessors.",
         technique="TLA+ spec (Formak.tla) + TLC simulation; spec->code replay into generated, compiled C++",
     ),
     "C07": dict(
         category="model_checking",
-        text="One Formak.tla behaviour (SetEstimate / Predict / accepted and rejected Updates / evaluations) is replayed into the Python "
-             "filter and into the generated C++ filter; both are compared with the spec after every step and with each other "
-             "(state, covariance, stored innovation, accept/reject decision), values set and read by field name on both sides.",
+        text="One Formak.tla behaviour (SetEstimate / Predict / accepted and rejected Updates / evaluations) is replayed into the Python filter and "
+             "into the generated C++ filter; both are compared with the spec after every step and with each other. A second family replays "
+             "seeded 40-call float histories recorded exactly from ONE Python filter object into the generated C++ (differential, no spec oracle).",
         design_ref="DESIGN.md section 4 C07",
         note="Trusted: Eigen stand-in, g++ 12; exact rational oracle; 1e-9 relative tolerance.",
         technique="TLA+ spec (Formak.tla) + TLC simulation; one behaviour replayed into Python and generated C++ (differential + oracle)",
@@ -153,10 +157,10 @@ CHECKS = {
     "C17": dict(
         category="model_checking",
         text="Estimator.tla models the adapter as a parameter record with commands and frame conditions (TLC: all command sequences up to "
-             "length 6 keep model / sensor models / calibration / untargeted configuration fields and the noise key sets). TLC-generated "
-             "command sequences (set_params on every parameter, field and unknown names, get-then-set, clone, queries, fit) are executed "
-             "on a real adapter over three model universes and varied training data; the recorded events with projected parameter state "
-             "are validated by TLC against Estimator_Trace.tla (fit nondeterministic: FitOk / FitFail).",
+             "length 6). TLC-generated command sequences (set_params on every parameter, field, several names in one call, config plus field, "
+             "unknown names; get-then-set, clone, queries, fit) are executed on a real adapter over three model universes and varied training "
+             "data incl. a corpus on which scipy does not converge; the recorded events with projected parameter state are validated by TLC "
+             "against Estimator_Trace.tla (fit nondeterministic: FitOk / FitFail).",
         design_ref="DESIGN.md section 4 C17",
         note="Trusted: the projection (tokens by identity / structural equality; noise maps as key set + finite + positive flags).",
         technique="TLA+ spec (Estimator.tla) generates command sequences; code->spec trace validation (Estimator_Trace.tla)",
